@@ -466,6 +466,9 @@ func (fr *Frame) contractCall(t *ssa.Call, callee *ssa.Function, fs *FuncSpec, a
 		pc := vc.name("panics", or(pan...))
 		if vc.spec == 0 {
 			xst := post.clone()
+			if fs.Flags["xpure"] {
+				xst = pre.clone()
+			}
 			for _, cl := range fs.Clauses {
 				if cl.Kind == "xensures" {
 					if cf := vc.clauseFn(cl); cf != nil {
@@ -544,6 +547,10 @@ func (vc *VC) evalModifiesFn(cf *ssa.Function, args []Val, st *State) []modEntry
 	defer func() { vc.modCapture = nil }()
 	if len(args) > len(cf.Params) {
 		args = args[:len(cf.Params)]
+	}
+	for len(args) < len(cf.Params) {
+		p := cf.Params[len(args)]
+		args = append(args, vc.freshVal("unknown_"+p.Name(), p.Type()))
 	}
 	saveX := len(vc.xexits)
 	vc.execFunction(cf, args, nil, st.clone(), tTrue, st, false)
@@ -681,7 +688,12 @@ func (vc *VC) applyModifies(callee *ssa.Function, fs *FuncSpec, args []Val, pre,
 		body = callee.Origin()
 	}
 	entries, has := vc.resolveModifies(fs, args, pre)
-	inferred, all := vc.modOfFunc(body)
+	inferred0, all := vc.modOfFunc(body)
+	inferred := map[string]bool{}
+	for k := range inferred0 {
+		inferred[k] = true
+	}
+	vc.ghostHeaps(fs, inferred)
 	if all && !has {
 		vc.havocAll(post)
 		return
@@ -827,6 +839,9 @@ func (vc *VC) modOfBlocks(fn *ssa.Function, blocks map[*ssa.BasicBlock]bool) (ma
 					if fs := vc.contractOf(callee); fs != nil && fs.hasClause("modifies") {
 						vc.staticModifiesHeaps(fs, out)
 					} else {
+						if fs != nil {
+							vc.ghostHeaps(fs, out)
+						}
 						h, a := vc.modOfFunc(body)
 						for k := range h {
 							out[k] = true
@@ -853,6 +868,21 @@ func (vc *VC) modOfBlocks(fn *ssa.Function, blocks map[*ssa.BasicBlock]bool) (ma
 		}
 	}
 	return out, all
+}
+
+// ghostHeaps adds the heaps written by the ghost clauses of a contract.
+func (vc *VC) ghostHeaps(fs *FuncSpec, out map[string]bool) {
+	for _, cl := range fs.Clauses {
+		if cl.Kind != "ghost" {
+			continue
+		}
+		if cf := vc.clauseFn(cl); cf != nil {
+			h, _ := vc.modOfFunc(cf)
+			for k := range h {
+				out[k] = true
+			}
+		}
+	}
 }
 
 func (fs *FuncSpec) hasClause(kind string) bool {
